@@ -64,7 +64,7 @@ Proof.
 Qed.
 Lemma names_set_node : forall d n v x, In x (names (set_node d n v)) <-> x = n \/ In x (names d).
 Proof.
-  unfold names. induction d as [|[k w] r IH]; intros n v x; cbn.
+  induction d as [|[k w] r IH]; intros n v x; cbn.
   - intuition.
   - destruct (beq k n) eqn:E; cbn.
     + apply beq_true_iff in E. subst. intuition.
